@@ -391,8 +391,10 @@ def stepLine (_ : Unit) (line : String) : Unit × String :=
   let r : Option String :=
     match words line with
     | ["reset"] => some "ok"
-    | ["plat"] => some ("long=" ++ toString BLOCK_SZ ++ " char=signed")
-    | ["plat2"] => some (String.intercalate " " ((platNames.zip platConsts).map fun (n, v) => n ++ "=" ++ toString v))
+    -- round 3b: only what the property depends on is compared (CHAR_BIT; the width of `int` and the ASCII
+    -- codes); sizeof(long), sizeof(size_t), memcpy.c's BLOCK_SZ and the signedness of char are tags of the harness
+    | ["plat"] => some "char_bit=8"
+    | ["plat2"] => some (String.intercalate " " (((platNames.zip platConsts).drop 2).map fun (n, v) => n ++ "=" ++ toString v))
     | ["cttab", name, _] => cttab name
     | ["ctype", c] => if c.startsWith "#" then (c.drop 1).toString.toInt?.map ctypeLine else none
     | "premain" :: _ :: "cttab" :: name :: _ => cttab name
